@@ -54,7 +54,7 @@ HSetServers(e) ==
   LET srv2 == ListEdit(srv, q, e.list)
       all == DOMAIN srv2
   IN
-  IF Len(e.list) = 0 \/ \E id \in DOMAIN q : q[id].st = "tosend" THEN OutOfScope
+  IF Len(e.list) = 0 \/ \E id \in DOMAIN q : q[id].st = "tosend" /\ ~(q[id].tcp /\ q[id].qsrv # 0) THEN OutOfScope
   ELSE /\ srv' = srv2
        /\ owedF' = [s \in all |-> IF s \in DOMAIN owedF THEN owedF[s] ELSE 0]
        /\ owedO' = [s \in all |-> IF s \in DOMAIN owedO THEN owedO[s] ELSE 0]
@@ -72,11 +72,17 @@ DyingTarget(e) ==
           /\ q[e.frames[1].qid].srv \in Dying THEN q[e.frames[1].qid].srv ELSE 0
   ELSE IF e.e = "sk" /\ e.op = "close" THEN
        IF e.fd \in DOMAIN fdi /\ fdi[e.fd].srv \in Dying THEN fdi[e.fd].srv ELSE 0
+  ELSE IF e.e = "sk" /\ ((e.op = "open" /\ e.tcp = 1) \/ (e.op = "connect" /\ e.fd \in DOMAIN fdi /\ fdi[e.fd].tcp)) THEN
+       \* a new connection is being opened for a query that was queued on a TCP connection of a dying server
+       LET qd == {id \in DOMAIN q : q[id].st = "tosend" /\ q[id].tcp /\ q[id].qsrv \in Dying} IN
+       IF qd # {} THEN q[CHOOSE id \in qd : TRUE].qsrv ELSE 0
   ELSE IF e.e = "cbb" THEN
        LET ids == {id \in DOMAIN q : q[id].t = e.t /\ ~q[id].probe}
-           onD == {id \in ids : q[id].st = "inflight" /\ q[id].srv \in Dying}
+           onD == {id \in ids : \/ (q[id].st = "inflight" /\ q[id].srv \in Dying)
+                                 \/ (q[id].st = "tosend" /\ q[id].tcp /\ q[id].qsrv \in Dying)}
+           sOf(id) == IF q[id].st = "inflight" THEN q[id].srv ELSE q[id].qsrv
        IN IF e.st \notin {"ECANCELLED", "EDESTRUCTION"} /\ onD # {} /\ \A id \in ids : q[id].st # "ending"
-          THEN q[CHOOSE id \in onD : TRUE].srv ELSE 0
+          THEN sOf(CHOOSE id \in onD : TRUE) ELSE 0
   ELSE 0
 
 DestroyStep(s) ==
@@ -117,7 +123,7 @@ HCall(e) ==
 NewRec(f, fd, probe) ==
   [t |-> f.t, qt |-> f.qt, api |-> IF f.t \in DOMAIN toks THEN toks[f.t] ELSE "query", probe |-> probe,
    st |-> "tosend", try |-> (IF ~probe /\ f.t \in DOMAIN newtry THEN newtry[f.t] ELSE 0), ntx |-> 0, to |-> 0, fd |-> 0, srv |-> 0, sentAt |-> 0, dlo |-> 0, dhi |-> 0,
-   tcp |-> (cfg.usevc = 1), edns |-> (f.edns = 1), reqsrv |-> 0, noretry |-> probe,
+   tcp |-> (cfg.usevc = 1), edns |-> (f.edns = 1), reqsrv |-> 0, qsrv |-> 0, noretry |-> probe,
    err |-> (IF ~probe /\ f.t \in DOMAIN newtry /\ newtry[f.t] > 0 THEN "ECONNREFUSED" ELSE ""), endst |-> "", endrc |-> -1,
    sentopts |-> FALSE, lname |-> f.lname, name |-> f.name]
 
@@ -158,7 +164,8 @@ HSendFrame(e, f) ==
   ELSE IF rec.st # "tosend" THEN Rej("c06.unsolicited_retransmission")
   ELSE IF isprobe /\ ~ProbeOk(f, dest) THEN Rej("c09.extra_copy_not_a_legal_probe")
   ELSE IF ~isprobe /\ rec.reqsrv # 0 /\ rec.reqsrv # dest THEN Rej("c06.downgrade_resend_wrong_server")
-  ELSE IF ~isprobe /\ rec.reqsrv = 0 /\ ~FreshChoiceOkIn(sv1, dest) THEN
+  ELSE IF ~isprobe /\ rec.qsrv # 0 /\ rec.qsrv # dest THEN Rej("c06.tcp_query_written_to_other_server_than_queued_on")
+  ELSE IF ~isprobe /\ rec.reqsrv = 0 /\ rec.qsrv = 0 /\ ~FreshChoiceOkIn(sv1, dest) THEN
        Rej(IF rec.try = 0 /\ rec.ntx = 0 THEN "c09.first_attempt_not_to_best_server" ELSE "c09.retry_not_to_best_server")
   ELSE IF rec.tcp /\ ~tcpfd THEN Rej("c06.tcp_query_sent_over_udp")
   ELSE IF ~rec.edns /\ f.edns = 1 THEN Rej("c06.edns_sent_after_downgrade")
@@ -166,7 +173,7 @@ HSendFrame(e, f) ==
        LET r2 == [rec EXCEPT !.st = "inflight", !.fd = fd, !.srv = dest, !.sentAt = now, !.ntx = @ + 1,
                              !.dlo = IF tcpfd THEN 0 ELSE AttemptLo(dest, now, rec.try),
                              !.dhi = IF tcpfd THEN Sat ELSE AttemptHi(dest, now, rec.try),
-                             !.sentopts = (f.clen > 0), !.reqsrv = 0]
+                             !.sentopts = (f.clen > 0), !.reqsrv = 0, !.qsrv = 0]
        IN IF r2.ntx > MaxTries + 5 THEN Rej("c06.budget_exceeded")
           ELSE /\ q' = (IF isnew THEN q @@ (f.qid :> r2) ELSE [q EXCEPT ![f.qid] = r2])
                /\ srv' = sv1 /\ owedF' = owed1
@@ -301,8 +308,14 @@ HSk(e) ==
          ELSE OpenFailed(e)
     [] e.op = "connect" ->
          IF e.res = "err" THEN OpenFailed(e)
-         ELSE /\ fdi' = [fdi EXCEPT ![e.fd].srv = e.srv]
-              /\ UNCHANGED <<cfg, now, srv, q, owedF, owedO, proc, oos, xvars>> /\ Acc
+         ELSE LET cand == {id \in DOMAIN q : q[id].st = "tosend" /\ q[id].tcp /\ q[id].qsrv = 0 /\ ~q[id].probe}
+                  one == Cardinality(cand) = 1 /\ e.fd \in DOMAIN fdi /\ fdi[e.fd].tcp
+                  id == CHOOSE x \in cand : TRUE
+              IN IF one /\ (IF q[id].reqsrv # 0 THEN q[id].reqsrv # e.srv ELSE ~FreshChoiceOk(e.srv))
+                 THEN Rej("c09.connection_attempt_not_to_best_server")
+                 ELSE /\ fdi' = [fdi EXCEPT ![e.fd].srv = e.srv]
+                      /\ q' = IF one THEN [q EXCEPT ![id].qsrv = e.srv] ELSE q
+                      /\ UNCHANGED <<cfg, now, srv, owedF, owedO, proc, oos, xvars>> /\ Acc
     [] e.op = "getsockname" -> IF e.res = "err" THEN OpenFailed(e) ELSE Skip
     [] e.op \in {"opt", "bind"} -> IF e.res = "err" /\ ~(e.op = "opt" /\ e.opt = "tfo") THEN OutOfScope ELSE Skip
     [] e.op = "send" -> HSend(e)
